@@ -19,6 +19,11 @@ use std::time::Duration;
 pub struct Msg {
     pub m: u64,
 }
+/// same as Msg, but the reply type is a plain String (the decimal value): requests with an odd id sent through an
+/// ActorRef use this type, so that both a user-defined and a std reply type travel through the type-erased reply channel
+pub struct SMsg {
+    pub m: u64,
+}
 /// request whose handler spawns a task and replies with its JoinHandle (ask_join)
 pub struct JMsg {
     pub m: u64,
@@ -48,6 +53,8 @@ pub struct Gate {
 pub struct Shared {
     pub name: String,
     pub gate: Mutex<Gate>,
+    /// outcome with which the next on_run invocation returns at its very first poll (it does not park on the gate)
+    pub run_now: Mutex<Option<String>>,
 }
 
 impl Shared {
@@ -55,6 +62,7 @@ impl Shared {
         Arc::new(Shared {
             name: name.to_string(),
             gate: Mutex::new(Gate { dir: None, waker: None, parked: "" }),
+            run_now: Mutex::new(None),
         })
     }
     pub fn give(&self, d: Dir) {
@@ -147,6 +155,13 @@ fn fin_unit(r: rsactor::Result<()>) -> OpOut {
         Err(e) => (map_err(&e).into(), 0, e.is_retryable()),
     }
 }
+fn fin_str(r: rsactor::Result<String>) -> OpOut {
+    match r {
+        // a reply that is not the decimal value a handler produces is reported as value 0 (no handler produces 0)
+        Ok(v) => ("ok".into(), v.parse::<u64>().unwrap_or(0), false),
+        Err(e) => (map_err(&e).into(), 0, e.is_retryable()),
+    }
+}
 fn fin_val(r: rsactor::Result<Val>) -> OpOut {
     match r {
         Ok(v) => ("ok".into(), v.0, false),
@@ -165,7 +180,12 @@ fn build(kind: &str, h: u64, m: u64, d: u64) -> Option<(String, OpFut)> {
             H::S(r) => {
                 let r = r.clone();
                 target = name_of(r.identity().id);
+                let odd = m % 2 == 1;
                 match kind {
+                    "tell" if odd => Box::pin(async move { fin_unit(r.tell(SMsg { m }).await) }),
+                    "ask" if odd => Box::pin(async move { fin_str(r.ask(SMsg { m }).await) }),
+                    "tellT" if odd => Box::pin(async move { fin_unit(r.tell_with_timeout(SMsg { m }, dur).await) }),
+                    "askT" if odd => Box::pin(async move { fin_str(r.ask_with_timeout(SMsg { m }, dur).await) }),
                     "tell" => Box::pin(async move { fin_unit(r.tell(Msg { m }).await) }),
                     "ask" => Box::pin(async move { fin_val(r.ask(Msg { m }).await) }),
                     "tellT" => Box::pin(async move { fin_unit(r.tell_with_timeout(Msg { m }, dur).await) }),
@@ -335,7 +355,7 @@ struct RunWrap<'a> {
 impl Future for RunWrap<'_> {
     type Output = String;
     fn poll(mut self: Pin<&mut Self>, cx: &mut Context<'_>) -> Poll<String> {
-        emit(json!({"e": "RunPoll", "a": self.sh.name, "inst": self.inst}));
+        crate::log::emit_once(json!({"e": "RunPoll", "a": self.sh.name, "inst": self.inst}));
         match self.inner.as_mut().poll(cx) {
             Poll::Ready(o) => {
                 self.finished = true;
@@ -367,6 +387,9 @@ impl Drop for RunWrap<'_> {
 
 /// body of on_run: like any hook it waits on the gate and performs the operations it is told to
 async fn run_body(sh: &Shared) -> String {
+    if let Some(o) = sh.run_now.lock().unwrap_or_else(|e| e.into_inner()).take() {
+        return o;
+    }
     loop {
         match GateFut(sh, "Run").await {
             Dir::Out(o) => return o,
@@ -435,6 +458,18 @@ impl Actor for S {
             "err" => Err(ErrTok("stop".into())),
             _ => panic!("scripted"),
         }
+    }
+}
+
+impl Message<SMsg> for S {
+    type Reply = String;
+    async fn handle(&mut self, msg: SMsg, r: &ActorRef<Self>) -> String {
+        let v = <S as Message<Msg>>::handle(self, Msg { m: msg.m }, r).await;
+        v.0.to_string()
+    }
+
+    fn on_tell_result(result: &String, r: &ActorRef<Self>) {
+        emit(json!({"e": "TellResult", "a": name_of(r.identity().id), "m": result.parse::<u64>().unwrap_or(0) / 100}));
     }
 }
 
